@@ -587,6 +587,8 @@ class Engine:
             from . import generators
             ns.__dict__["out"] = generators.SeqV(st.ghost["#nout"], st.ghost["#out"])
         ns.__dict__["pyghost"] = {k: v for k, v in st.ghost.items() if k.startswith("py:")}
+        # the same python-level ghosts resolved against the current heap (views of arrays / objects)
+        ns.__dict__["rghost"] = {k[3:]: self.resolve(v, st.heap) for k, v in st.ghost.items() if k.startswith("py:")}
         return ns
 
     # -- obligations ----------------------------------------------------------------
@@ -1940,6 +1942,9 @@ def dotted_name(e):
         e = e.value
     if isinstance(e, ast.Name):
         parts.append(e.id)
+        return ".".join(reversed(parts))
+    if isinstance(e, ast.Call) and isinstance(e.func, ast.Name) and e.func.id == "super" and not e.args and parts:
+        parts.append("super()")
         return ".".join(reversed(parts))
     return None
 
